@@ -17,8 +17,18 @@ import numpy as np
 import numba as nb
 
 
-@nb.njit(parallel=True, cache=True)
 def calculate_interferometer_on_fock_space(interferometer, helper_indices):
+    if len(helper_indices[0]) == 0:
+        # NOTE: For `cutoff <= 2` the helper index lists are empty, and Numba cannot
+        # infer the type of an empty list. In this case, only the 0- and 1-particle
+        # representations are needed.
+        return [np.array([[1.0]], dtype=interferometer.dtype), interferometer]
+
+    return _calculate_interferometer_on_fock_space(interferometer, helper_indices)
+
+
+@nb.njit(parallel=True, cache=True)
+def _calculate_interferometer_on_fock_space(interferometer, helper_indices):
     cutoff = len(helper_indices[0]) + 2
     subspace_representations = []
 
